@@ -45,10 +45,16 @@ def model_htmldiff_line(old_fragment, new_fragment, url_rules, max_spacers=None)
                                      enc_rules(url_rules), I(ms)), (wf_tree(old_el) and wf_tree(new_el))
 
 
-def impl_htmldiff(old_fragment, new_fragment, url_rules):
+def impl_htmldiff(old_fragment, new_fragment, url_rules, max_spacers=None):
     import web_monitoring_diff.html_render_diff as h
     comparator = h.UrlRules.get_comparator(url_rules)
-    meta, diffs = h._htmldiff(old_fragment, new_fragment, comparator, 'all')
+    saved = h.MAX_SPACERS
+    if max_spacers is not None:
+        h.MAX_SPACERS = max_spacers       # module constant read by _htmldiff at call time
+    try:
+        meta, diffs = h._htmldiff(old_fragment, new_fragment, comparator, 'all')
+    finally:
+        h.MAX_SPACERS = saved
     return meta, diffs
 
 
@@ -67,7 +73,7 @@ def fragments_of(a_text, b_text):
     return out
 
 
-def correspondence(pairs, url_rules=None, model_available=True):
+def correspondence(pairs, url_rules=None, model_available=True, max_spacers=None):
     """
     pairs: list of (old_fragment, new_fragment).  Returns list of dicts
     {old, new, impl: (meta, diffs) | exc, model: (...), mismatch: [...], in_domain: bool}
@@ -75,7 +81,7 @@ def correspondence(pairs, url_rules=None, model_available=True):
     lines, dom = [], []
     for a, b in pairs:
         try:
-            ln, ok = model_htmldiff_line(a, b, url_rules)
+            ln, ok = model_htmldiff_line(a, b, url_rules, max_spacers)
         except Exception as e:  # noqa
             ln, ok = 'htmldiff ( ) ( ) ( ) 0', False
         lines.append(ln)
@@ -85,7 +91,7 @@ def correspondence(pairs, url_rules=None, model_available=True):
     for (a, b), m, ok in zip(pairs, model, dom):
         rec = {'old': a, 'new': b, 'in_domain': ok, 'mismatch': [], 'model': None}
         try:
-            meta, diffs = impl_htmldiff(a, b, url_rules)
+            meta, diffs = impl_htmldiff(a, b, url_rules, max_spacers)
             rec['impl'] = (meta, diffs)
         except Exception as e:  # noqa
             rec['impl'] = None
